@@ -7,6 +7,7 @@ mod common;
 mod host;
 mod mock;
 mod templ;
+mod admit;
 
 use common::*;
 use std::path::{Path, PathBuf};
@@ -25,6 +26,7 @@ fn replay_file(comp: &str, path: &Path, out: &mut Out) {
         "codec" => c10::replay(&desc, &ops, out),
         "host" => host::replay(&desc, &ops, out),
         "templ" => templ::replay(&desc, &ops, out),
+        "admit" => admit::replay(&desc, &ops, out),
         _ => panic!("unknown component"),
     }
 }
@@ -41,6 +43,7 @@ fn main() {
         let t = match argv.get(2).map(|s| s.as_str()) {
             Some("KindTable") => c10::table_kind(),
             Some("TemplTable") => templ::table_templ(),
+            Some("AdmitTable") => admit::table_admit(),
             _ => {
                 eprintln!("unknown table");
                 std::process::exit(2)
@@ -115,6 +118,7 @@ fn main() {
         "codec" => c10::run(&args, &mut out),
         "host" => host::run(&args, &mut out),
         "templ" => templ::run(&args, &mut out),
+        "admit" => admit::run(&args, &mut out),
         _ => {
             eprintln!("unknown component {}", comp);
             std::process::exit(2)
